@@ -1,11 +1,12 @@
 import BridgeVerif.Driver.Util
 import BridgeVerif.Model.Score
 import BridgeVerif.Spec.Scoring
+import BridgeVerif.Driver.Auction
 /-! The line-protocol driver: one op per line in, one canonical line out. -/
 namespace Bridge.Driver
 
 structure DState where
-  dummy : Unit := ()
+  auction : Option AState := none
 
 def scoreOps (t : List String) : Option String :=
   match t with
@@ -29,6 +30,9 @@ def step (s : DState) (line : String) : DState × String :=
   | op :: _ =>
     if op.startsWith "I." || op.startsWith "S." then
       (s, (scoreOps t).getD "bad-op")
+    else if op.startsWith "A." then
+      let (a, o) := auctionOps s.auction t
+      ({ s with auction := a }, o)
     else (s, "bad-op")
 
 partial def loop (h : IO.FS.Stream) (out : IO.FS.Stream) (s : DState) : IO Unit := do
